@@ -820,6 +820,8 @@ def check_no_stale_heads(ctx, F):
 def run(ctx):
     F = ctx.F
     check_out_of_data(ctx, F)
+    import props.C08 as c08
+    c08.check_clone_complete(ctx, F, CHAIN)      # a snapshot (clone / clone_from) carries the heads as well as the two backends
     check_no_stale_heads(ctx, F)
     check_heads_ctor_fill(ctx, F)
     check_refused_export_untouched(ctx, F)
